@@ -76,11 +76,11 @@ def render(rnd, items, vars_, data_first):
         else:
             s = rnd.choice([it[1], it[1].lower(), it[1].capitalize()])
             if it[2]:
-                s += " " + (it[2][1] if it[2][0] == "name" else rnd.choice([str(it[2][1]), hex(it[2][1]), "0x%03X" % it[2][1]]))
+                s += " " + (it[2][1] if it[2][0] == "name" else rnd.choice([str(it[2][1]), hex(it[2][1]), "0x%03X" % it[2][1], "%04d" % it[2][1], "0%d" % it[2][1]]))
             if it[3]:
                 s = it[3] + ": " + s
             tl.append(rnd.choice(["", "  ", "\t"]) + s + rnd.choice(["", " # c"]))
-    dl = ["%s: .word %s" % (n, ", ".join(rnd.choice([str(v), hex(v)]) for v in vals)) for n, vals in vars_]
+    dl = ["%s: .word %s" % (n, ", ".join(rnd.choice([str(v), hex(v), "%06d" % v, "0x%04x" % v]) for v in vals)) for n, vals in vars_]
     if not vars_:
         return "\n".join(tl)
     if data_first:
@@ -174,7 +174,7 @@ def run(tier, seed):
         elif not bad and inline and len(samples) < 2 and len(text) < 300:
             samples.append({"text": text})
     return {"evaluations": evals, "distinct_nontrivial": len(seen), "violations": viol, "samples": samples or [{"text": "LDA 5"}],
-            "rule": "(every eighth program is assembled by a simulation configured with a smaller unified memory: data is then placed downward from that memory's top) TOY program ASTs: exhaustive over sequences of <= 3 instructions from 5 templates (label operand, variable operands, numeric, no operand) x every placement of one label (in-line on each instruction, stand-alone anywhere incl. the end) x segment order; seeded random programs up to 25 instructions with up to 4 labels and 3 array variables, operands decimal/hex, mnemonic case, comments; plus the two documented examples executed; distinct by AST shape",
+            "rule": "(every eighth program is assembled by a simulation configured with a smaller unified memory: data is then placed downward from that memory's top) TOY program ASTs: exhaustive over sequences of <= 3 instructions from 5 templates (label operand, variable operands, numeric, no operand) x every placement of one label (in-line on each instruction, stand-alone anywhere incl. the end) x segment order; seeded random programs up to 25 instructions with up to 4 labels and 3 array variables, operands decimal (also with leading zeros) / hex (also zero-padded), mnemonic case, comments; plus the two documented examples executed; distinct by AST shape",
             "bound": "<= 25 instructions", "contract": "memory == {i: encoding of instruction i} + data downward from 4095 in declaration order, elements ascending; max_pc = n-1"}
 
 
